@@ -17,7 +17,7 @@ sys.path.insert(0, os.path.dirname(os.path.abspath(__file__)))
 import core  # noqa: E402
 
 
-LEVELS = {'C03': 'translation_validation', 'C04': 'translation_validation', 'C17': 'translation_validation'}
+LEVELS = {'C03': 'translation_validation', 'C04': 'translation_validation'}
 
 
 def main():
